@@ -806,7 +806,7 @@ theorem checkNewAuths_congr {room : RoomT} {old l : List AuthNode}
 /-- the guard that was needed before /repo 77018f3 -/
 def candGuardBeforeFixes (s : RStore) (cand : RoomNode) : Bool :=
   cand.placingOk &&
-  match s.rooms.find? (·.id = cand.node.id), readBack s cand.node.id with
+  match s.rooms.find? (·.id = cand.node.id), readBack false s cand.node.id with
   | some room, some old =>
     (rowEq cand.node old.node ||
       (old.node.mdate < cand.node.mdate && cand.node.ent = 100 && room.isAdmin cand.node.author cand.node.mdate)) &&
@@ -865,7 +865,7 @@ theorem accept_congr_beforeFixes {s : RStore} {cand : RoomNode} (g : candGuardBe
   | none => rfl
   | some room =>
     simp only
-    cases hold : readBack s cand.node.id with
+    cases hold : readBack false s cand.node.id with
     | none => rfl
     | some old =>
       simp only
@@ -898,7 +898,7 @@ theorem accept_none_placing {s s' : RStore} {cand : RoomNode} (h : accept Defect
 /-- inversion of `accept` for any setting of the switches -/
 theorem accept_ok {d : Defects} {s s' : RStore} {cand : RoomNode} (h : accept d s cand = .ok s') :
     cand.sigsOk = true ∧ cand.consistent = true ∧
-    ((∃ room old, s.rooms.find? (·.id = cand.node.id) = some room ∧ readBack s cand.node.id = some old ∧
+    ((∃ room old, s.rooms.find? (·.id = cand.node.id) = some room ∧ readBack d.newestFirstRead s cand.node.id = some old ∧
         ∃ merged upd, prepareWithHistory d room old cand = some (.ok (merged, upd)) ∧
           ((upd = false ∧ s' = s) ∨
            (upd = true ∧ ∃ r, merged.parse = .ok r ∧ s' = installRoom (writeRoom s merged) r))) ∨
@@ -928,7 +928,7 @@ theorem accept_ok {d : Defects} {s s' : RStore} {cand : RoomNode} (h : accept d 
         | some room =>
           rw [hroom] at h
           simp only at h
-          cases hold : readBack s cand.node.id with
+          cases hold : readBack d.newestFirstRead s cand.node.id with
           | none => rw [hold] at h; cases h
           | some old =>
             rw [hold] at h
